@@ -43,7 +43,7 @@ let model line =
            Buffer.add_string b (Printf.sprintf " %d:%s" r (hex_of_bytes (render toks)));
            Some t')) (Some t) calls in
   Buffer.contents b
-let oracle excl walk line =
+let oracle walk line =
   match String.split_on_char '|' line with
   | [c; o] ->
     let (t, calls) = parse_case (split_ws c) in
@@ -52,9 +52,6 @@ let oracle excl walk line =
        let start = bytes_of_hex (String.sub init 2 (String.length init - 2)) in
        let v0 = vt_freeze (with_pattern (vt_run_bytes start (vt_init t.t_lines t.t_cols))) in
        let pairs = List.combine calls obs in
-       (* with [excl], the judgement ends before the first printn(str, 0) of a non-empty string *)
-       let rec cut = function [] -> [] | (a, _) :: _ when excl && printn_trigger a -> [] | x :: r -> x :: cut r in
-       let pairs = cut pairs in
        let parse_ob ob = (match split_on ':' ob with [r; h] -> (r <> "0", bytes_of_hex h) | _ -> failwith "obs") in
        (* quiet calls (flush, set_output_buffer) must write nothing and are not requests *)
        if List.exists (fun (a, ob) -> req_of_api a = None && (not (quiet_api a) || snd (parse_ob ob) <> [])) pairs
@@ -73,6 +70,6 @@ let oracle excl walk line =
   | _ -> "BAD line"
 let () =
   let mode = if Array.length Sys.argv > 1 then Sys.argv.(1) else "model" in
-  let f = match mode with "oracle" -> oracle false oracle_walk | "oracle-excl" -> oracle true oracle_walk_excl | _ -> model in
+  let f = match mode with "oracle" -> oracle oracle_walk | "oracle-excl" -> oracle oracle_walk_excl | _ -> model in
   iter_lines (fun l -> print_endline (try f l with Failure m -> (if mode <> "model" then "BAD ERR " else "ERR ") ^ m
                                                  | Invalid_argument m -> "BAD ERR " ^ m))
